@@ -24,20 +24,27 @@ const nBackends = 4
 type world struct {
 	client *rc.Conn
 	player *proxy.C18Player
-	conns  [nBackends]*rc.Conn
-	scs    [nBackends]*proxy.C18ServerConn
-	seen   [nBackends]int
+	conns  []*rc.Conn // index = identity of the serverConnection; grows with `new`
+	scs    []*proxy.C18ServerConn
+	seen   []int
 	seenC  int
 }
 
 func newWorld() *world {
 	w := &world{client: rc.New(state.Play, 0)}
 	w.player = proxy.C18NewPlayer(w.client)
-	for i := range w.conns {
-		w.conns[i] = rc.New(state.Play, 0)
-		w.scs[i] = proxy.C18NewServerConn(w.player, "s"+strconv.Itoa(i), w.conns[i])
+	for i := 0; i < nBackends; i++ {
+		w.addConn()
 	}
 	return w
+}
+
+// addConn creates the next serverConnection through newServerConnection (a fresh backend, PLAY, connected).
+func (w *world) addConn() {
+	c := rc.New(state.Play, 0)
+	w.conns = append(w.conns, c)
+	w.scs = append(w.scs, proxy.C18NewServerConn(w.player, "s"+strconv.Itoa(len(w.scs)), c))
+	w.seen = append(w.seen, 0)
 }
 
 type wr struct {
@@ -51,6 +58,9 @@ func (w *world) delta() []wr {
 	for i, c := range w.conns {
 		for _, e := range c.Log(w.seen[i]) {
 			w.seen[i]++
+			if e.Kind == "close" { // disconnect closes the backend connection: not a write
+				continue
+			}
 			out = append(out, entryToWr(i, e))
 		}
 	}
@@ -102,6 +112,12 @@ func (w *world) apply(op string) string {
 	switch f[0] {
 	case "cap":
 		return strconv.Itoa(proxy.C18PendingCapacity())
+	case "new": // the next connection attempt: newServerConnection
+		w.addConn()
+		return "-"
+	case "disc": // serverConnection.disconnect (switch / kick); its read loop may still deliver packets
+		proxy.C18Disconnect(w.scs[atoi(f[1])])
+		return showWrites(w.delta())
 	case "rec":
 		proxy.C18Record(w.scs[atoi(f[1])], id(f[2]))
 		return showWrites(w.delta())
@@ -214,13 +230,23 @@ func (w *world) apply(op string) string {
 type gen struct {
 	run *hx.Run
 	w   *world
+	nb  int // serverConnections created so far in this sequence
 }
+
+const maxBackends = 16
 
 func (g *gen) do(class, op string) {
 	if op == "reset" {
 		g.w = newWorld()
+		g.nb = nBackends
 		g.run.Case(class, op, "-")
 		return
+	}
+	if op == "new" {
+		if g.nb >= maxBackends {
+			return
+		}
+		g.nb++
 	}
 	w := g.w
 	out := hx.Guard(20*time.Second, func() string { return w.apply(op) })
@@ -255,6 +281,67 @@ func optB(r *hx.Rng) string {
 		return "-"
 	}
 	return strconv.Itoa(r.Intn(nBackends))
+}
+
+// lifecycleSeq: server switches / kicks.  New serverConnections are created by newServerConnection, old ones
+// disconnected while their read loop may still hand an already decoded keep-alive to recordBackendKeepAlive.
+func (g *gen) lifecycleSeq(class string) {
+	r := g.run.Rng
+	g.do(class, "reset")
+	a := r.Intn(nBackends)
+	g.do(class, fmt.Sprintf("cur %d", a))
+	next := int64(100)
+	fresh := func() int64 { next++; return next }
+	var late []int64
+	for sw := 1 + r.Intn(4); sw > 0 && g.nb < maxBackends-1; sw-- {
+		for k := r.Intn(3); k > 0; k-- {
+			id := fresh()
+			g.do(class, fmt.Sprintf("rec %d %d", a, id))
+			if r.Chance(2, 3) {
+				g.do(class, fmt.Sprintf("reply %d", id))
+			} else {
+				late = append(late, id)
+			}
+		}
+		newBefore := r.Chance(1, 2) // the next connection is created before or after the old one goes away
+		c := -1
+		if newBefore {
+			g.do(class, "new")
+			c = g.nb - 1
+			g.do(class, fmt.Sprintf("infl %d", c))
+		}
+		g.do(class, fmt.Sprintf("disc %d", a))
+		for k := 1 + r.Intn(3); k > 0; k-- { // already decoded keep-alives of the dead connection
+			id := fresh()
+			late = append(late, id)
+			g.do(class, fmt.Sprintf("rec %d %d", a, id))
+		}
+		if !newBefore || r.Chance(1, 2) {
+			g.do(class, "new")
+			c = g.nb - 1
+			g.do(class, fmt.Sprintf("infl %d", c))
+		}
+		if r.Chance(1, 2) {
+			g.do(class, fmt.Sprintf("state %d c", c))
+		}
+		if r.Chance(1, 2) { // replies while the new connection is still in flight
+			for _, id := range late {
+				if r.Chance(1, 2) {
+					g.do(class, fmt.Sprintf("reply %d", id))
+				}
+			}
+		}
+		g.do(class, fmt.Sprintf("cur %d", c))
+		if r.Chance(1, 2) {
+			id := fresh()
+			g.do(class, fmt.Sprintf("rec %d %d", c, id))
+			g.do(class, fmt.Sprintf("reply %d", id))
+		}
+		for _, id := range late {
+			g.do(class, fmt.Sprintf("reply %d", id))
+		}
+		a = c
+	}
 }
 
 // randomSeq: one history of records (repeated ids, both connections), replies, switches, state changes.
@@ -372,6 +459,11 @@ func main() {
 	g.script("fixed", "cur 0", "rec 0 1", "race 8 1", "race 8 1")
 	g.script("fixed", "cur 0", "infl 1", "rec 0 1", "rec 1 1", "rec 0 2", "rec 1 3", "race 6 1,2,3,4", "race 2 1,2,3")
 	g.script("fixed", "cur 0", "infl 1", "burst 0 70 0", "burst 1 70 35", "race 5 0,5,6,35,40,69,70,104,105")
+	// connection lifecycle: a disconnected connection whose read loop still delivers a keep-alive must not
+	// make a LATER connection (the next newServerConnection) answerable for that id
+	g.script("fixed", "cur 0", "rec 0 5", "disc 0", "rec 0 77", "new", "cur 4", "reply 77", "rec 4 9", "reply 9", "reply 5")
+	g.script("fixed", "cur 0", "disc 1", "rec 1 8", "new", "infl 4", "state 4 c", "reply 8", "rec 4 8", "reply 8")
+	g.script("fixed", "cur 0", "new", "infl 4", "rec 4 3", "disc 0", "rec 0 6", "cur 4", "new", "infl 5", "reply 6", "reply 3")
 	// handlers queued up behind a held connection mutex: still one forward per pending id
 	g.script("fixed", "cur 0", "rec 0 1", "racelocked 4 1", "racelocked 4 1")
 	g.script("fixed", "cur 0", "infl 1", "rec 0 1", "rec 1 1", "rec 0 2", "rec 1 3", "racelocked 5 1,2,3,4")
@@ -380,6 +472,10 @@ func main() {
 	nseq := run.Scale(300, 3000)
 	for i := 0; i < nseq; i++ {
 		g.randomSeq(20+run.Rng.Intn(run.Scale(80, 200)), "random")
+	}
+	// connection lifecycles: switches and kicks with keep-alives still arriving from the old connection
+	for i := 0; i < run.Scale(80, 800); i++ {
+		g.lifecycleSeq("lifecycle")
 	}
 	// concurrency-heavy sequences
 	for i := 0; i < run.Scale(60, 600); i++ {
